@@ -169,6 +169,12 @@ def check(res):
     allp = progs.all_programs(seed, 25); rnd.shuffle(allp)
     base += [("exec", s) for s in allp[:(250 if tier == "quick" else 3000)]]
     base += [("exec", t) for _, t in progs.repo_py_files(vlib.REPO) if len(t) < 30000][: (40 if tier == "quick" else 200)]
+    # comprehension clauses: every target spelling x every continuation
+    tg = ["x", "x,", "x, y", "x, y,", "(x, y)", "[x, y]", "(x,)", "x, *y", "x.a", "x[0]", "x, (y, z)"]
+    for t in tg:
+        for tail in ["", " if z", " if z if w", " for y in z", " if z for q, in w", " for q, in w if z"]:
+            for form in ["[%s]", "(%s)", "{%s}", "{v: %s}", "f(%s)"]:
+                base.append(("eval", form % ("v for %s in s%s" % (t, tail))))
     import c01
     for _ in range(300 if tier == "quick" else 5000):
         g = c01.Gen(rnd); base.append(("eval", g.expr(rnd.choice([1, 2, 3, 4]))[0]))
